@@ -454,19 +454,18 @@ impl RdfStore {
         if let Some(tx) = tx_id {
             let buffer = self.tx_buffer.read();
             if let Some(ops) = buffer.buffers.get(&tx) {
-                // Collect pending deletes
-                let pending_deletes: FxHashSet<&Triple> = ops
-                    .iter()
-                    .filter_map(|op| match op {
-                        PendingOp::Delete(t) => Some(t),
-                        _ => None,
-                    })
-                    .collect();
-
-                // Filter out pending deletes from committed results
-                if !pending_deletes.is_empty() {
-                    results.retain(|t| !pending_deletes.contains(t.as_ref()));
+                // Net effect of the buffered operations in program order: the last
+                // operation on a triple decides whether the transaction sees it
+                let mut last_op_inserts: HashMap<&Triple, bool> = HashMap::new();
+                for op in ops {
+                    match op {
+                        PendingOp::Insert(t) => last_op_inserts.insert(t, true),
+                        PendingOp::Delete(t) => last_op_inserts.insert(t, false),
+                    };
                 }
+
+                // Filter out committed results whose last pending operation is a delete
+                results.retain(|t| last_op_inserts.get(t.as_ref()) != Some(&false));
 
                 // Include pending inserts, each triple once: a pending insert of a
                 // triple that is already in the results (committed, or inserted
@@ -474,6 +473,7 @@ impl RdfStore {
                 let mut present: FxHashSet<Arc<Triple>> = results.iter().cloned().collect();
                 for op in ops {
                     if let PendingOp::Insert(triple) = op
+                        && last_op_inserts.get(triple) == Some(&true)
                         && pattern.matches(triple)
                     {
                         let triple = Arc::new(triple.clone());
